@@ -13,7 +13,7 @@ usage: python3 src_tie_selftest.py [--keep] [--only NAME]
 """
 import json, os, shutil, subprocess, sys, time
 
-LEAN_DIR = os.path.dirname(os.path.abspath(__file__))
+LEAN_DIR = os.path.normpath(os.path.join(os.path.dirname(os.path.abspath(__file__)), "..", "lean"))
 GEN = os.path.normpath(os.path.join(LEAN_DIR, "..", "tools", "gen_src.py"))
 REPO = os.environ.get("VERIF_REPO", "/repo")
 SCRATCH = "/tmp/srctie_scratch/selftest"
